@@ -2,11 +2,14 @@
 
 use crate::core::{Space, Tier};
 
+pub mod c01;
+pub mod c02;
+pub mod c12;
 pub mod c14;
 pub mod c19;
 pub mod c20;
 
-pub const ALL: &[&str] = &["C14", "C19", "C20"];
+pub const ALL: &[&str] = &["C01", "C02", "C12", "C14", "C19", "C20"];
 
 pub fn intern(id: &str) -> Option<&'static str> {
     ALL.iter().copied().find(|p| *p == id)
@@ -21,6 +24,9 @@ pub struct Meta {
 
 pub fn meta(prop: &str) -> Option<Meta> {
     match prop {
+        "C01" => Some(c01::meta()),
+        "C02" => Some(c02::meta()),
+        "C12" => Some(c12::meta()),
         "C14" => Some(c14::meta()),
         "C19" => Some(c19::meta()),
         "C20" => Some(c20::meta()),
@@ -30,6 +36,9 @@ pub fn meta(prop: &str) -> Option<Meta> {
 
 pub fn spaces(prop: &str, tier: Tier, seed: u64) -> Vec<Box<dyn Space>> {
     match prop {
+        "C01" => c01::spaces(tier, seed),
+        "C02" => c02::spaces(tier, seed),
+        "C12" => c12::spaces(tier, seed),
         "C14" => c14::spaces(tier, seed),
         "C19" => c19::spaces(tier, seed),
         "C20" => c20::spaces(tier, seed),
@@ -40,12 +49,51 @@ pub fn spaces(prop: &str, tier: Tier, seed: u64) -> Vec<Box<dyn Space>> {
 /// Self-checks of reference models and alphabets; a failure is a machinery error (exit 2).
 pub fn self_check(prop: &str) -> Result<(), String> {
     match prop {
+        "C01" | "C02" | "C12" => c01::self_check(),
         "C20" => c20::self_check(),
         _ => Ok(()),
     }
 }
 
-/// Developer helper, not used by any registered check.
-pub fn probe(_args: &[String]) -> i32 {
+/// Developer helper, not used by any registered check:
+///   oq3verif probe parse <text>     dump the syntax tree and diagnostics
+///   oq3verif probe sema <text>      dump the semantic graph, symbols and diagnostics
+///   oq3verif probe lex <text>       dump the token table
+pub fn probe(args: &[String]) -> i32 {
+    use oq3_semantics::syntax_to_semantics::parse_source_string;
+    let text = args.get(1).cloned().unwrap_or_default();
+    match args.first().map(|s| s.as_str()) {
+        Some("lex") => {
+            let lexed = oq3_parser::LexedStr::new(&text);
+            for i in 0..lexed.len() {
+                println!("{:?} {:?}", lexed.kind(i), lexed.text(i));
+            }
+            for (i, m) in lexed.errors() {
+                println!("error at token {}: {}", i, m);
+            }
+        }
+        Some("rawparse") => {
+            let (green, errs) = oq3_syntax::parse_text(&text);
+            let root = oq3_syntax::SyntaxNode::new_root(green);
+            println!("{:#?}", root);
+            for e in errs {
+                println!("error {:?}: {}", e.range(), e);
+            }
+        }
+        Some("parse") => {
+            let p = oq3_syntax::ast::SourceFile::parse(&text);
+            println!("{}", p.debug_dump());
+        }
+        Some("sema") => {
+            let r = parse_source_string(text.as_str(), None);
+            println!("syntax errors: {}", r.any_syntax_errors());
+            r.program().print_asg_debug();
+            r.symbol_table().dump();
+            for e in r.semantic_errors().iter() {
+                println!("semantic error: {:?} at {:?}", e.kind(), e.range());
+            }
+        }
+        _ => return 2,
+    }
     0
 }
